@@ -70,7 +70,7 @@ def _shapes_c02_1(tier):
 @obligation("C02.1", _shapes_c02_1,
             functions=RL_FUNCS, assumes=ASSUMES,
             patches=lambda shape: (rl_proxies(), []),
-            timeout=(300, 1200), max_paths=5000)
+            timeout=(300, 1200), max_paths=5000, also=("C08",))
 def c02_1(I, shape):
     """acceptance implies (type, plaintext) == the writer's next record"""
     mode = shape["mode"]
@@ -184,7 +184,7 @@ def _shapes_c02_2(tier):
                      "other header bits and the body symbolic",
                      "cipher/MAC models as in C02.1 (no unforgeability "
                      "assumption needed: rejection must not depend on it)"],
-            patches=lambda shape: (rl_proxies(), []))
+            patches=lambda shape: (rl_proxies(), []), also=("C08",))
 def c02_2(I, shape):
     """no SSLv2-framed record is accepted once a TLS read state is active"""
     mode = shape["mode"]
@@ -232,7 +232,7 @@ def _shapes_c02_3(tier):
 @obligation("C02.3", _shapes_c02_3,
             functions=["tlslite.recordlayer:RecordLayer._tls13_de_pad"],
             assumes=["inner plaintext of n arbitrary bytes"],
-            patches=lambda shape: (rl_proxies(), []))
+            patches=lambda shape: (rl_proxies(), []), also=("C08",))
 def c02_3(I, shape):
     """_tls13_de_pad: (content, type) = split at the last non-zero byte"""
     n = shape["n"]
@@ -241,6 +241,10 @@ def c02_3(I, shape):
         out, ctype = rl.RecordLayer._tls13_de_pad(newbuf(list(data)))
     except TLSUnexpectedMessage:
         I.check(AND([b == 0 for b in data]), "all-zero-iff-rejected")
+        return
+    except Exception as e:
+        I.fail("unexpected exception type %s from _tls13_de_pad"
+               % type(e).__name__)
         return
     k = len(out)
     I.check(AND(k < n, data[k] == ctype, ctype != 0,
